@@ -27,7 +27,7 @@ import vlib
 
 PID = "C02"
 PKG = "yv-c02"
-_LOCK = threading.Lock()
+_LOCK = threading.RLock()
 
 # name -> (cfg file, TickLimit of that cfg)
 GEN = {
@@ -115,6 +115,20 @@ def _cfg_with_k(cfg, k, wd):
     with open(name, "w") as f:
         f.write("\n".join(lines) + "\n")
     return name
+
+
+class _LockedReporter:
+    """The reporter handed to a stage that runs concurrently with the replay tasks."""
+
+    def __init__(self, rep):
+        self._rep = rep
+
+    def violation(self, key, detail, replay_obj):
+        with _LOCK:
+            return self._rep.violation(key, detail, replay_obj)
+
+    def __getattr__(self, name):
+        return getattr(self._rep, name)
 
 
 class Stats:
@@ -369,6 +383,10 @@ def run_property(pid, tier):
     for i, cfg in enumerate(plan["laws"]):
         tasks.append(lambda cfg=cfg, i=i: laws(cfg, st, workers=4, coverage=(i == 0)))
     tasks.append(lambda: res.update(p3=random_and_validate(rep, pid, wd, n, size, profile, st, jobs=4, shards=6)))
+    if pid == "C02":
+        # command search on the real kernel (PATH search takes the first executable *regular file*): stage of G04
+        from checks import g04
+        tasks.append(lambda: res.update(cmdsearch=g04.run_stage(tier, _LockedReporter(rep), budget="c02")))
     gens = list(plan["gen"])
     if (real_name, real_k) not in gens:
         gens.append((real_name, real_k))
@@ -403,6 +421,7 @@ def run_property(pid, tier):
         "token_kinds_replayed": st.kinds,
         "tlc_action_coverage": st.coverage,
         "known_finding_hits": {fid: n for fid, (f, n) in rep.known_hits.items()},
+        **({"cmdsearch_stage": res["cmdsearch"]} if "cmdsearch" in res else {}),
     }, time.time() - t0, violations=len(rep.violations), assumptions=[
         "the probe built-ins mk/probe/tick registered by the harness behave as Semantics.tla describes its leaves",
         "events of concurrently running pipeline members are compared after the canonical linearisation "
@@ -411,7 +430,9 @@ def run_property(pid, tier):
         "programs the specification classifies as unspecified (break/continue/return without an enclosing "
         "loop/function in the same execution environment, ...) or as not terminating within the fuel are skipped",
         "TLC 1.8.0 and the JSON community module are trusted",
-    ])
+    ] + (["command-search stage: the assumptions of G04 (B3): executables are #!/bin/sh scripts in a scratch "
+          "directory; what ran is read from their output; the wording of `command -V` / `type` is classified by "
+          "keywords"] if "cmdsearch" in res else []))
     return rc
 
 
@@ -423,6 +444,9 @@ def replay_property(pid, path):
     with open(path) as f:
         obj = json.load(f)
     rec = obj["replay"]
+    if isinstance(rec, dict) and rec.get("stage") == "g04":
+        from checks import g04
+        return g04.replay(path)
     wd = vlib.workdir(pid + "-replay")
     src = os.path.join(wd, "in.json")
     with open(src, "w") as f:
